@@ -197,9 +197,13 @@ class Overhang(EntityMethod):
             return [("match-consulted", tm.FALSE)]
         s, d = doubled_text(ex, pre, a["self"])
         s0, s1 = span_terms(st, sm, self.group)
+        got = ex.models.text(st, result)
+        grp = tm.substr(d, s0, tm.sub(s1, s0))
         return [("is-a-Seq", tm.B(isinstance(result, VObj) and result.kind == "Seq")),
-                ("overhang-is-text-of-group-%d" % self.group,
-                 tm.eq(ex.models.text(st, result), tm.substr(d, s0, tm.sub(s1, s0))))]
+                ("overhang-is-text-of-group-%d-up-to-case" % self.group, tm.eq(tm.upper(got), tm.upper(grp))),
+                # C18: overhangs are compared with == and used as dict keys by the assembly, so the spelling of the
+                # record must not show in them: the reported overhang is case-normalised
+                ("overhang-is-case-normalised", tm.eq(got, tm.upper(grp)))]
 
     def result(self, ex, st, a):
         if is_abstract(st, a["self"]):
@@ -211,7 +215,7 @@ class Overhang(EntityMethod):
         s0, s1 = span_terms(s2, sm, self.group)
         pos, ln = s2.get(s2.get(sm, "match"), "pos").t, s2.get(s2.get(sm, "match"), "len").t
         s2 = s2.assume(tm.le(pos, s0), tm.le(s0, s1), tm.le(s1, tm.add(pos, ln)))
-        r = ex.models.mk_seq(s2, tm.substr(d, s0, tm.sub(s1, s0)))
+        r = ex.models.mk_seq(s2, tm.upper(tm.substr(d, s0, tm.sub(s1, s0))))
         return [(s2, r)]
 
 
@@ -321,8 +325,20 @@ class VectorPlaceholder(EntityMethod):
         s, d = doubled_text(ex, pre, a["self"])
         c1, _ = span_terms(st, sm, 1)
         _, c2 = span_terms(st, sm, 2)
-        return [("placeholder-is-contiguous-stretch-between-the-cuts",
-                 tm.eq(ex.models.text(st, result), tm.substr(d, c1, tm.sub(c2, c1))))]
+        # letters are compared up to case: the leading overhang is reported case-normalised (C18).  Stated
+        # piecewise (overhang part up to case, body part verbatim, total length) so that no homomorphism law of
+        # str.upper is needed; contiguity = the two pieces are adjacent in the plasmid (groups 1 and 2 are).
+        _, e1 = span_terms(st, sm, 1)
+        b2, _ = span_terms(st, sm, 2)
+        res = ex.models.text(st, result)
+        k1 = tm.sub(e1, c1)
+        L = tm.sub(c2, c1)
+        return [("placeholder-starts-with-the-overhang-at-the-first-cut",
+                 tm.eq(tm.upper(tm.substr(res, 0, k1)), tm.upper(tm.substr(d, c1, k1)))),
+                ("placeholder-continues-with-the-body-up-to-the-second-cut",
+                 tm.eq(tm.substr(res, k1, tm.sub(L, k1)), tm.substr(d, e1, tm.sub(c2, e1)))),
+                ("placeholder-length-is-the-distance-between-the-cuts", tm.eq(tm.slen(res), L)),
+                ("overhang-and-body-are-adjacent", tm.eq(b2, e1))]
 
     def result(self, ex, st, a):
         s2, sm = match_facts(ex, st, a, "ph")
